@@ -352,7 +352,9 @@ def execute(case):
                 v.probe("unreadable-lane-not-applicable")
                 return v
             op = "stat" if case["hashseed"] % 2 else "open"
-            inv["plan"] = ["* %s 1 %s errno %d" % (op, os.path.normpath(cfgfile), 13 if case["hashseed"] % 3 else 5)]
+            # (EACCES, EIO, or -- for the open only -- ENOENT: the file was found and is gone a moment later)
+            en = [13, 5, 2][case["hashseed"] % 3] if op == "open" else (13 if case["hashseed"] % 3 else 5)
+            inv["plan"] = ["* %s 1 %s errno %d" % (op, os.path.normpath(cfgfile), en)]
             v.planned("errno")
             snap0 = core.snapshot(sc.root)
             r = core.run_inv(sc, inv)
